@@ -142,6 +142,20 @@ func (h *heapRun) applyStats(o *obj, st Step, ret map[string]interface{}) bool {
 		}
 		ret["muts"] = l
 		h.lastErr = err
+	case "SiteConservation":
+		c, err := needAlign(o).SiteConservation(ai(a, "site"))
+		if err != nil {
+			h.lastErr = err
+			return true
+		}
+		ret["v"] = c
+	case "AlphabetInfo":
+		ret["chars"] = b2i(o.sb.AlphabetCharacters())
+		idx := []int{}
+		for _, c := range aints(a, "chars") {
+			idx = append(idx, o.sb.AlphabetCharToIndex(byte(c)))
+		}
+		ret["idx"] = idx
 	case "CountProfile":
 		p := align.NewCountProfileFromAlignment(needAlign(o))
 		l := []map[string]interface{}{}
